@@ -42,6 +42,10 @@ func genAlertJob(r *rand.Rand, n int, tier string) []string {
 			out = append(out, bad[r.Intn(len(bad))])
 			continue
 		}
+		if r.Intn(4) == 0 { // the set of alerts and their jobs (second line kind)
+			out = append(out, genAlertSetLine(r))
+			continue
+		}
 		interval := []int{1, 1, 2, 3}[r.Intn(4)]
 		nn := []int{1, 2, 2, 3, 3, 4}[r.Intn(6)]
 		window := nn*interval + r.Intn(interval)
@@ -248,6 +252,9 @@ func ajPost(h func(*fasthttp.RequestCtx), body []byte) int {
 
 func execAlertJob(line string) Result {
 	f := strings.Fields(line)
+	if len(f) >= 1 && f[0] == "ajs" {
+		return execAlertSet(f[1:])
+	}
 	if len(f) < 4 || f[0] != "aj" {
 		return Result{Out: "bad-op"}
 	}
@@ -524,4 +531,322 @@ func execAlertJob(line string) Result {
 		return Result{Out: "harness-error:history"}
 	}
 	return finish(fmt.Sprintf("h=%d", len(hist)))
+}
+
+// ---------------------------------------------------------------- second line kind: the SET of alerts and their jobs
+// ajs <op> ...   (Lean: Model/AlertSet.lean)   alerts are numbered by create attempt 1, 2, …
+//   c<w>/<i> create (Logs) | k<type> create with alert_type <type>, window 1, interval 1 | u<k>:<w>/<i> update | d<k> delete
+//   z<k> / y<k>  the row of alert k is rewritten behind the API to interval 0 / alert_type 0 (a row an older version left)
+//   R restart
+// → per op  <ok|ref|->|<stored rows k:w/i:type>|<job tags ascending, one per job>
+
+func genAlertSetLine(r *rand.Rand) string {
+	if r.Intn(30) == 0 {
+		bad := []string{"ajs", "ajs k2", "ajs c1", "ajs c1/1 u1", "ajs c1/1 u1:2", "ajs c1/1 dx", "ajs c1/1 r", "ajs c/1", "ajs z", "ajs c1/1 u1:1/1/1"}
+		return bad[r.Intn(len(bad))]
+	}
+	var ops []string
+	created := 0
+	def := func() string { // a definition: mostly acceptable, else one of the refused shapes
+		switch x := r.Intn(100); {
+		case x < 60:
+			i := 1 + r.Intn(3)
+			return fmt.Sprintf("%d/%d", i*(1+r.Intn(3))+r.Intn(i), i)
+		case x < 75:
+			return "0/0"
+		case x < 85:
+			return fmt.Sprintf("%d/0", 1+r.Intn(5))
+		default:
+			i := 2 + r.Intn(3)
+			return fmt.Sprintf("%d/%d", r.Intn(i), i)
+		}
+	}
+	create := func() {
+		created++
+		if r.Intn(6) == 0 {
+			ops = append(ops, fmt.Sprintf("k%d", []int{0, 0, 3, 4, 7, 255, 1}[r.Intn(7)]))
+		} else {
+			ops = append(ops, "c"+def())
+		}
+	}
+	pick := func() int { // mostly an alert that exists
+		if created == 0 || r.Intn(10) == 0 {
+			return created + 1 + r.Intn(2)
+		}
+		return 1 + r.Intn(created)
+	}
+	if r.Intn(3) == 0 { // by construction: an alert, a refused create, another alert, a restart
+		ops = append(ops, "c1/1")
+		ops = append(ops, []string{"c0/0", "c3/0", "k0", "k7"}[r.Intn(4)])
+		ops = append(ops, "c2/1", "R")
+		created = 3
+	}
+	for n := 2 + r.Intn(9); n > 0; n-- {
+		switch x := r.Intn(100); {
+		case x < 40:
+			create()
+		case x < 58:
+			ops = append(ops, "R")
+		case x < 72:
+			ops = append(ops, fmt.Sprintf("u%d:%s", pick(), def()))
+		case x < 82:
+			ops = append(ops, fmt.Sprintf("d%d", pick()))
+		case x < 91:
+			ops = append(ops, fmt.Sprintf("z%d", pick()), "R")
+		default:
+			ops = append(ops, fmt.Sprintf("y%d", pick()), "R")
+		}
+	}
+	if r.Intn(2) == 0 {
+		ops = append(ops, "R")
+	}
+	return "ajs " + strings.Join(ops, " ")
+}
+
+type ajsOp struct {
+	kind byte // c k u d z y R
+	k    uint64
+	w, i uint64
+	ty   uint64
+}
+
+func parseAjsPair(s string) (uint64, uint64, bool) {
+	p := strings.Split(s, "/")
+	if len(p) != 2 {
+		return 0, 0, false
+	}
+	a, ok1 := alertParseDec(p[0])
+	b, ok2 := alertParseDec(p[1])
+	return a, b, ok1 && ok2
+}
+
+func parseAjsOp(s string) (ajsOp, bool) {
+	if s == "R" {
+		return ajsOp{kind: 'R'}, true
+	}
+	if len(s) < 2 {
+		return ajsOp{}, false
+	}
+	rest := s[1:]
+	switch s[0] {
+	case 'c':
+		w, i, ok := parseAjsPair(rest)
+		return ajsOp{kind: 'c', w: w, i: i, ty: 1}, ok
+	case 'k':
+		t, ok := alertParseDec(rest)
+		return ajsOp{kind: 'k', w: 1, i: 1, ty: t}, ok && t != 2
+	case 'd', 'z', 'y':
+		k, ok := alertParseDec(rest)
+		return ajsOp{kind: s[0], k: k}, ok
+	case 'u':
+		p := strings.Split(rest, ":")
+		if len(p) != 2 {
+			return ajsOp{}, false
+		}
+		k, ok := alertParseDec(p[0])
+		w, i, ok2 := parseAjsPair(p[1])
+		return ajsOp{kind: 'u', k: k, w: w, i: i, ty: 1}, ok && ok2
+	}
+	return ajsOp{}, false
+}
+
+func ajsBody(name string, ty, window, interval uint64, id string) []byte {
+	var m map[string]interface{}
+	_ = json.Unmarshal(ajAlertBody(name, window, interval, id), &m)
+	m["alert_type"] = ty
+	b, _ := json.Marshal(m)
+	return b
+}
+
+func execAlertSet(toks []string) Result {
+	if len(toks) == 0 {
+		return Result{Out: "bad-op"}
+	}
+	var ops []ajsOp
+	for _, t := range toks {
+		op, ok := parseAjsOp(t)
+		if !ok {
+			return Result{Out: "bad-op"}
+		}
+		ops = append(ops, op)
+	}
+	if err := bootAlertWorld(); err != nil {
+		return Result{Out: "harness-error:" + err.Error()}
+	}
+	ajOnce.Do(alertsHandler.VerifJobPrepare)
+	alertSeq++
+	org := int64(100000 + alertSeq)
+	nameOf := func(k uint64) string { return fmt.Sprintf("verif-ajs-%d-%d", alertSeq, k) }
+	var res Result
+	tags := map[string]bool{"kind=alert-set": true}
+	fail := func(sig, msg string) { res.Fails = append(res.Fails, PropFail{Sig: sig, Msg: msg}) }
+	idOf := map[uint64]string{} // every alert id ever seen, by attempt number
+	type rowT struct {
+		k, w, i, ty uint64
+		jobs        int
+	}
+	// what the database and the scheduler say now
+	snapshot := func() (string, []rowT, map[uint64]int, error) {
+		all, err := alertsHandler.VerifGetAllAlerts(org)
+		if err != nil {
+			return "", nil, nil, err
+		}
+		stored := map[uint64]bool{}
+		var rows []rowT
+		for _, a := range all {
+			var sq int
+			var k uint64
+			if _, err := fmt.Sscanf(a.AlertName, "verif-ajs-%d-%d", &sq, &k); err != nil {
+				return "", nil, nil, fmt.Errorf("unexpected alert %q", a.AlertName)
+			}
+			idOf[k] = a.AlertId
+			stored[k] = true
+			rows = append(rows, rowT{k: k, w: a.EvalWindow, i: a.EvalInterval, ty: uint64(a.AlertType), jobs: alertsHandler.VerifJobCount(a.AlertId)})
+		}
+		for x := 1; x < len(rows); x++ { // sort by attempt number
+			for y := x; y > 0 && rows[y-1].k > rows[y].k; y-- {
+				rows[y-1], rows[y] = rows[y], rows[y-1]
+			}
+		}
+		jobs := map[uint64]int{}
+		var ks []uint64
+		for k, id := range idOf {
+			if n := alertsHandler.VerifJobCount(id); n > 0 {
+				jobs[k] = n
+				ks = append(ks, k)
+			}
+		}
+		for x := 1; x < len(ks); x++ {
+			for y := x; y > 0 && ks[y-1] > ks[y]; y-- {
+				ks[y-1], ks[y] = ks[y], ks[y-1]
+			}
+		}
+		var rs, js []string
+		for _, r := range rows {
+			rs = append(rs, fmt.Sprintf("%d:%d/%d:%d", r.k, r.w, r.i, r.ty))
+		}
+		for _, k := range ks {
+			for n := 0; n < jobs[k]; n++ {
+				js = append(js, fmt.Sprint(k))
+			}
+		}
+		return strings.Join(rs, ",") + "|" + strings.Join(js, ","), rows, jobs, nil
+	}
+	defer func() {
+		for _, id := range idOf {
+			ajPost(alertsHandler.ProcessDeleteAlertRequest, []byte(fmt.Sprintf(`{"alert_id":%q}`, id)))
+			alertsHandler.VerifJobRemove(id)
+		}
+		alertsHandler.VerifJobQuiesce()
+	}()
+	idFor := func(k uint64) string {
+		if id, ok := idOf[k]; ok {
+			return id
+		}
+		return fmt.Sprintf("verif-missing-%d", k)
+	}
+	var out []string
+	var attempt uint64
+	before, _, _, err := snapshot()
+	if err != nil {
+		return Result{Out: "harness-error:" + err.Error()}
+	}
+	restarts, refusedSeen := 0, false
+	for idx, op := range ops {
+		ans := "-"
+		status := 200
+		switch op.kind {
+		case 'c', 'k':
+			attempt++
+			status = ajPost(func(c *fasthttp.RequestCtx) { alertsHandler.ProcessCreateAlertRequest(c, org) }, ajsBody(nameOf(attempt), op.ty, op.w, op.i, ""))
+			if op.i == 0 {
+				tags["create-with-interval-0"] = true
+			}
+			if op.ty != 1 {
+				tags["create-with-other-alert-type"] = true
+			}
+		case 'u':
+			status = ajPost(alertsHandler.ProcessUpdateAlertRequest, ajsBody(nameOf(op.k), 1, op.w, op.i, idFor(op.k)))
+		case 'd':
+			status = ajPost(alertsHandler.ProcessDeleteAlertRequest, []byte(fmt.Sprintf(`{"alert_id":%q}`, idFor(op.k))))
+		case 'z', 'y':
+			if id, ok := idOf[op.k]; ok {
+				cols := map[string]interface{}{"eval_window": 0, "eval_interval": 0}
+				if op.kind == 'y' {
+					cols = map[string]interface{}{"alert_type": 0}
+				}
+				if err := alertsHandler.VerifLegacyRow(id, cols); err != nil {
+					return Result{Out: "harness-error:legacy-row:" + err.Error()}
+				}
+				tags["row-rewritten-behind-the-api"] = true
+			}
+		case 'R':
+			if err := alertsHandler.VerifJobRestart(org); err != nil {
+				return Result{Out: "harness-error:restart:" + err.Error()}
+			}
+			restarts++
+		}
+		alertsHandler.VerifJobQuiesce()
+		if op.kind == 'c' || op.kind == 'k' || op.kind == 'u' || op.kind == 'd' {
+			if status == 200 {
+				ans = "ok"
+			} else {
+				ans = "ref"
+				refusedSeen = true
+			}
+		}
+		after, rows, jobs, err := snapshot()
+		if err != nil {
+			return Result{Out: "harness-error:" + err.Error()}
+		}
+		out = append(out, ans+"|"+after)
+		where := fmt.Sprintf("op %d (%s)", idx+1, toksAt(toks, idx))
+		// ---- property: a refused request changes nothing (in particular a refused create stores nothing)
+		if ans == "ref" && after != before {
+			fail("alert-job/refused-request-changes-state", fmt.Sprintf("%s was answered with status %d, yet stored alerts | jobs went from %s to %s", where, status, before, after))
+		}
+		// ---- property: exactly one job per stored alert that can be scheduled, none for anything else; a restart re-arms every alert
+		stored := map[uint64]bool{}
+		unsched := false
+		for _, r := range rows {
+			stored[r.k] = true
+			can := r.i != 0 && (r.ty == 1 || r.ty == 2)
+			if !can {
+				unsched = true
+			}
+			switch {
+			case r.jobs > 1:
+				fail("alert-job/not-exactly-one-job", fmt.Sprintf("%s: alert %d has %d cron jobs", where, r.k, r.jobs))
+			case can && r.jobs == 0 && op.kind == 'R':
+				fail("alert-job/alert-without-job-after-restart", fmt.Sprintf("%s: stored alert %d (window %d, interval %d) has no cron job after the restart; stored | jobs = %s", where, r.k, r.w, r.i, after))
+			case can && r.jobs == 0 && ans == "ok" && (op.kind == 'c' || op.kind == 'k' || (op.kind == 'u' && op.k == r.k)) && (op.kind == 'u' || r.k == attempt):
+				fail("alert-job/not-exactly-one-job", fmt.Sprintf("%s: the request was accepted but alert %d has no cron job", where, r.k))
+			}
+		}
+		if op.kind == 'R' && unsched {
+			tags["restart-with-unschedulable-row"] = true
+		}
+		for k, n := range jobs {
+			if !stored[k] {
+				fail("alert-job/job-of-deleted-alert", fmt.Sprintf("%s: %d cron job(s) for alert %d, which is not stored", where, n, k))
+			}
+		}
+		before = after
+	}
+	if refusedSeen {
+		tags["refused-request"] = true
+	}
+	res.Out = strings.Join(out, " ")
+	res.Nontrivial = restarts > 0 && attempt >= 2
+	for t := range tags {
+		res.Tags = append(res.Tags, t)
+	}
+	return res
+}
+
+func toksAt(toks []string, i int) string {
+	if i < len(toks) {
+		return toks[i]
+	}
+	return "?"
 }
